@@ -2086,4 +2086,14 @@ theorem print_in_Prints_gen (o : Opts) (f : File) (b : Bytes) (hwf : f.wf = true
       rw [c2, hsumF, step_nl, hl.sk, ht, f1]
       simp [nlT]
 
+/-- Both halves together: on all of F0, with monotone positions, printing and parsing again gives
+    a tree with the same norm (every option set, every variant). -/
+theorem roundtrip_gen (o : Opts) (l : Lang) (f : File) (b : Bytes) (hwf : f.wf = true) (hmono : posMono f)
+    (hne : f.stmts ≠ .nil) (hp : printFile o f = .ok b) : ∃ f', parse l b = .ok f' ∧ f'.norm = f.norm := by
+  obtain ⟨ps, lt, rfl, hc, hv, he, hn⟩ := print_in_Prints_gen o f b hwf hmono hne hp
+  have hm := lexAll_pieces ps hc
+  rw [he] at hm
+  obtain ⟨f', h1, h2⟩ := parseToks_layout lt hv false (lexAll (render ps)) (lexAll_line _) hm
+  exact ⟨f', h1, by rw [h2, hn]⟩
+
 end ShVerif.L4
